@@ -14,6 +14,8 @@ trap 'git -C /repo checkout -q -- . 2>/dev/null; cp $EVBAK/*.json /verif/evidenc
 mkdir -p seeded/results
 for id in $IDS; do
   prop=$(jq -r .property seeded/$id/meta.json); [ -n "$PROP" ] && prop=$PROP
+  # a change produced for one property but decided by the other check (see meta.json "also")
+  also=$(jq -r '.also // empty' seeded/$id/meta.json); [ -z "$PROP" ] && [ -n "$also" ] && prop=$also
   expect=$(jq -r '.expect // "violation"' seeded/$id/meta.json)
   for seed in $SEEDS; do
     git -C /repo apply /verif/seeded/$id/patch.diff || { echo "$id: patch does not apply"; continue; }
